@@ -936,7 +936,10 @@ static void DecodeLDC_STC(Word IsSTC) {
             } else {
                 tAdrResult AdrResult;
 
-                DecodeAdr(pMemArg, MModGen | MModReg32 | MModAReg32, &AdrResult);
+                if (DecodeAdr(pMemArg, MModGen | MModReg32 | MModAReg32, &AdrResult)
+                    == ModNone) {
+                    return;
+                }
                 if (AdrResult.Type == ModAReg32) {
                     AdrResult.Mode = 4;
                 }
